@@ -141,6 +141,17 @@ def main(tier, seed, replay=None):
             progs.append((list(perm), ops, {"P": P, "N": 10}))
     for _ in range(150 if tier == "quick" else 3000):
         progs.append(gen_model(rng))
+    # names that differ in ASCII case only are different parameters (v1 / V1): routing and derivative placement keep them apart
+    for rep in range(12 if tier == "quick" else 200):
+        names, ops, info = gen_model(rng, P=rng.randint(2, 5))
+        pool = [500 + k for k in range(1, 4)] + [600 + k for k in range(1, 4)]
+        rng.shuffle(pool)
+        ren = {n: pool[j] for j, n in enumerate(names)} if len(names) <= len(pool) else {}
+        if ren:
+            names = [ren[n] for n in names]
+            ops = [(o[0], [ren[a] for a in o[1]]) + tuple(o[2:]) if o[0] == "function" else
+                   (o[0], ren[o[1]]) + tuple(o[2:]) if o[0] == "partial_deriv" else o for o in ops]
+        progs.append((names, ops, info))
     # many parameters: indices beyond 64 / 128 (bit masks, small fixed-size tables)
     for P in ([66, 70] if tier == "quick" else [65, 66, 70, 96, 129, 130, 200]):
         progs.append(gen_big_model(rng, P))
